@@ -1,8 +1,10 @@
 From Verif Require Import Common C01_Model C01_Spec C01_Monitor.
+From Verif Require Op_Model Op_Corr Op_Spec C01_OpSpec.
 Open Scope N_scope.
 
 Inductive case := CInf (i : input) (o : observation) | CMon (i : min) (o : mobs)
-  | CStress (i : input) (o : observation).   (* free-running goroutines: judged by P_free only *)
+  | CStress (i : input) (o : observation)    (* free-running goroutines: judged by P_free only *)
+  | COp (c : Op_Corr.case).                   (* the whole operator (Op_Model): unlock only by the binding's own Synchronization *)
 
 (* ghost of the run: changes picked up when the last Synchronization read before the first
    unlock was taken (computed by the model run itself) *)
@@ -24,12 +26,13 @@ Definition obs_of (s : state) : observation :=
        (match out_before_e s with Some n => n | None => N.of_nat (length (out s)) end)
        (finished s) false.
 
-Inductive mo := MoInf (o : observation) | MoMon (o : mobs).
+Inductive mo := MoInf (o : observation) | MoMon (o : mobs) | MoOp (o : list Op_Corr.sobs).
 Definition model_obs (c : case) : mo :=
   match c with
   | CInf i _ => MoInf (obs_of (run i))
   | CMon i _ => MoMon (mobserve i)
   | CStress i _ => MoInf (obs_of (run i))
+  | COp c => MoOp (Op_Corr.model_obs c)
   end.
 
 Definition view_eqb (a b : N * cache_t) : bool := N.eqb (fst a) (fst b) && cache_eqb (snd a) (snd b).
@@ -54,6 +57,7 @@ Definition agrees (c : case) : bool :=
       && N.eqb (mo_ev_pre m) (mo_ev_pre o) && N.eqb (mo_ev_late m) (mo_ev_late o)
       && negb (mo_bad o)
   | CStress _ o => negb (ob_bad o)
+  | COp c => Op_Corr.agrees c
   end.
 
 Definition spec_ok (c : case) : bool :=
@@ -61,6 +65,7 @@ Definition spec_ok (c : case) : bool :=
   | CInf i o => P i (k_of i) o
   | CMon i o => MP i o
   | CStress i o => P_free i o
+  | COp c => C01_OpSpec.P_op c
   end.
 
 Definition mismatches (cs : list case) : list N := indices_where (fun c => negb (agrees c)) cs.
